@@ -678,10 +678,39 @@ impl QueryJob {
 
         let (relation, tuple) = parse_why_not_target(&input)?;
         let query_start = std::time::Instant::now();
-        let (rules, base_data) = storage
+        let (mut rules, mut base_data) = storage
             .get_rules_and_data(&kg_name)
             .map_err(|e| format!("Failed to access knowledge graph: {e}"))?;
-        let ctx = ProofContext::new(&rules, &base_data, ProofConfig::default());
+        // Body atoms (positive or negated) over derived relations can only be judged
+        // against the derived data, exactly as for `.why`: evaluate the rules once and
+        // hand the results to the explanation. If the evaluation fails the explanation
+        // falls back to base data only.
+        let mut derived_data: Option<std::collections::HashMap<String, Vec<crate::value::Tuple>>> =
+            None;
+        if let Some(arity) = rules
+            .iter()
+            .find(|r| r.head.relation == relation)
+            .map(|r| r.head.args.len())
+        {
+            let vars: Vec<String> = (0..arity).map(|i| format!("V{i}")).collect();
+            let query = format!(
+                "__query__({}) <- {}({})",
+                vars.join(", "),
+                relation,
+                vars.join(", ")
+            );
+            if let Ok((_, snap_rules, snap_base, derived, _)) =
+                storage.execute_and_get_context(&kg_name, &query)
+            {
+                rules = snap_rules;
+                base_data = snap_base;
+                derived_data = Some(derived);
+            }
+        }
+        let mut ctx = ProofContext::new(&rules, &base_data, ProofConfig::default());
+        if let Some(ref derived) = derived_data {
+            ctx = ctx.with_derived_data(derived);
+        }
         let query_us = query_start.elapsed().as_micros() as u64;
 
         let explain_start = std::time::Instant::now();
